@@ -114,6 +114,33 @@ def h_curve_grid_after_knot_edit(cx, p, kv, kv2, dim, rational, ss, normalize):
         cx.eq('grid_before[%d]' % i, first[i], oracles.curve_point_def(p, K, P, W, ui, cx))
 
 
+def h_after_rejected_ctrlpts(cx, p, kv, dim, rational):
+    """a control-point assignment that is rejected (ragged input) may leave the shape unusable, but a shape that still
+    evaluates must evaluate to the definition of what its getters report"""
+    c, K, P, W, n = _curve_setup(cx, p, kv, dim, rational)
+    u = cx.real('u', lo=K[p], hi=K[n], param=True)
+    cx.eq('before', c.evaluate_single(u), oracles.curve_point_def(p, K, P, W, u, cx))
+    width = dim + (1 if rational else 0)
+    bad = [[cx.const(1)] * (width - 1)] + [[cx.const(2)] * width for _ in range(n - 2)] + [[cx.const(3)] * (width - 2)]
+    try:
+        c.set_ctrlpts(bad)
+        return                        # accepted: nothing claimed
+    except Exception:
+        pass
+    try:
+        pt = c.evaluate_single(u)
+        view = [list(q) for q in (c.ctrlptsw if rational else c.ctrlpts)]
+    except Exception:
+        return                        # the shape refuses further use: fine
+    if len(view) != n or any(len(q) != width for q in view):
+        return
+    Pv = [[x / q[-1] for x in q[:-1]] for q in view] if rational else view
+    Wv = [q[-1] for q in view] if rational else None
+    cx.check('point_dimension', len(pt) == dim, 'point has %d coordinates, shape is %d-dimensional' % (len(pt), dim))
+    if len(pt) == dim:
+        cx.eq('evaluates_what_it_reports', pt, oracles.curve_point_def(p, K, Pv, Wv, u, cx))
+
+
 def h_surface(cx, pu, pv, kvu, kvv, dim=3, rational=False):
     s, Ku, Kv, P, W, su, sv = _surf_setup(cx, pu, pv, kvu, kvv, dim, rational)
     u = cx.real('u', lo=Ku[pu], hi=Ku[su], param=True)
@@ -247,6 +274,8 @@ def instances(tier):
                                             (1, [2, 2, 3, 4, 5, 5], [2, 2, F(5, 2), F(9, 2), 5, 5], True, False)]:
         out.append(inst('curvegrid p%d knots edited in place between two evaluations %s normalize_kv=%s' % (p, 'rat' if rational else 'nonrat', normalize), h_curve_grid_after_knot_edit,
                         p=p, kv=kv, kv2=kv2, dim=2, rational=rational, ss=5, normalize=normalize))
+    for rational in (False, True):
+        out.append(inst('curve p2 after a rejected ragged set_ctrlpts %s' % ('rat' if rational else 'nonrat'), h_after_rejected_ctrlpts, p=2, kv=fam.pattern(2, (1,)), dim=3, rational=rational))
     out.append(inst('curvegrid p2 domain[2,5] ss4', h_curve_grid, p=2, kv=fam.pattern(2, (1,), 2, 5), dim=2, rational=True, ss=4))
     # surfaces
     surf = [((1, 2), ((1,), ())), ((2, 1), ((), (1,))), ((2, 2), ((1,), (2,))), ((3, 2), ((), (1,)))]
